@@ -1,6 +1,7 @@
 import SpoxModel.Model.Singleton
 import SpoxModel.Lemmas.Singleton
 import SpoxModel.Generated.C05Overrides
+import SpoxModel.Model.MLOnnx
 /-! Property theorems for C05 (only property-level statements and non-vacuity examples live here). -/
 set_option linter.unusedSimpArgs false
 set_option linter.unusedVariables false
@@ -293,11 +294,11 @@ theorem eager_agrees (Infer : InferFn) (hI : InferOK Infer) (nm : Ref → String
     (Infer (handModel nm c) = none → construct Infer c = .error .inference) ∧
     (∀ res, Infer (handModel nm c) = some res →
       construct Infer c = .ok (c.outPairs.map (fun p =>
-        (p.1, (lookupTy (nm (Ref.out p.2)) res).map stripUnk)))) := by
+        (p.1, (lookupTy (nm (Ref.out p.2)) res).map (stripUnk c.givenNames))))) := by
   have hS := infer_singleton Infer hI nm c hwf hg
   have hsome : ∀ res, Infer (handModel nm c) = some res →
       construct Infer c = .ok (c.outPairs.map (fun p =>
-        (p.1, (lookupTy (nm (Ref.out p.2)) res).map stripUnk))) := by
+        (p.1, (lookupTy (nm (Ref.out p.2)) res).map (stripUnk c.givenNames)))) := by
     intro res hres
     rw [hres] at hS
     simp only [construct, hk, ht, hS, Option.map_some]
@@ -363,16 +364,16 @@ theorem result_mapping_bijective (c : Call) (hwf : WF c) (res : List (String × 
 
 /-- **stripUnk_weakens**: stripping the invented `unk__*` dimension names only forgets dimensions:
     constructor, element type and rank are kept, every kept dimension is unchanged. -/
-theorem stripUnk_weakens (t : Ty) : Weaker (stripUnk t) t := by
+theorem stripUnk_weakens (g : List String) (t : Ty) : Weaker (stripUnk g t) t := by
   induction t with
   | tensor e sh =>
     cases sh with
     | none => exact .tensorNone e
-    | some s => exact .tensorSome e _ _ (stripShape_weaker s)
+    | some s => exact .tensorSome e _ _ (stripShape_weaker g s)
   | seq t ih => exact .seq ih
   | opt t ih => exact .opt ih
 
-theorem stripUnk_idem (t : Ty) : stripUnk (stripUnk t) = stripUnk t := by
+theorem stripUnk_idem (g : List String) (t : Ty) : stripUnk g (stripUnk g t) = stripUnk g t := by
   induction t with
   | tensor e sh =>
     cases sh with
@@ -382,13 +383,13 @@ theorem stripUnk_idem (t : Ty) : stripUnk (stripUnk t) = stripUnk t := by
       congr 2
       apply List.map_congr_left
       intro d _
-      exact stripDim_idem d
+      exact stripDim_idem g d
   | seq t ih => simp [stripUnk, ih]
   | opt t ih => simp [stripUnk, ih]
 
 /-- a type without invented dimension names (in particular: with the user's own symbolic
     dimensions) comes through unchanged -/
-theorem stripUnk_keeps (t : Ty) (h : tyInvented t = false) : stripUnk t = t := by
+theorem stripUnk_keeps (g : List String) (t : Ty) (h : tyInvented g t = false) : stripUnk g t = t := by
   induction t with
   | tensor e sh =>
     cases sh with
@@ -400,7 +401,7 @@ theorem stripUnk_keeps (t : Ty) (h : tyInvented t = false) : stripUnk t = t := b
       conv => rhs; rw [← List.map_id s]
       apply List.map_congr_left
       intro d hd
-      exact stripDim_id d (by simpa using h d hd)
+      exact stripDim_id g d (by simpa using h d hd)
   | seq t ih => simp only [tyInvented] at h; simp [stripUnk, ih h]
   | opt t ih => simp only [tyInvented] at h; simp [stripUnk, ih h]
 
@@ -660,7 +661,7 @@ example : prune (singleton addCall) =
       (handModel (fun r => match r with | .inp _ => "x" | .out _ => "y") addCall) := by decide
 example : (singleton addCall).opset = ("", 14) := by decide
 
-example : stripUnk (.seq (f32 [.sym "N", .sym "unk__12", .const 3])) = .seq (f32 [.sym "N", .unk, .const 3]) := by
+example : stripUnk [] (.seq (f32 [.sym "N", .sym "unk__12", .const 3])) = .seq (f32 [.sym "N", .unk, .const 3]) := by
   decide
 
 def splitSig : Sig :=
@@ -909,12 +910,35 @@ theorem supplement_replacing_counterexample :
         [("Values", some (f32 [.const 2, .unk])), ("Indices", some (.tensor 7 (some [.const 2, .unk])))] = false := by
   decide
 
-/-- `stripUnk_keeps` needs its hypothesis: a dimension the CALLER named `unk__0` is stripped with the
-    invented ones (known finding `types-differ:user-dim-named-unk__`) -/
+/-- before fix `f580c1e` every `unk__*` name was stripped (`given = []`): a dimension the CALLER
+    named `unk__0` went with the invented ones -/
 theorem stripUnk_user_named_unk_counterexample :
-    stripUnk (.tensor 1 (some [.sym "unk__0", .const 2])) = .tensor 1 (some [.unk, .const 2])
-    ∧ stripUnk (.tensor 1 (some [.sym "unk__0", .const 2])) ≠ .tensor 1 (some [.sym "unk__0", .const 2]) := by
+    stripUnk [] (.tensor 1 (some [.sym "unk__0", .const 2])) = .tensor 1 (some [.unk, .const 2])
+    ∧ stripUnk [] (.tensor 1 (some [.sym "unk__0", .const 2])) ≠ .tensor 1 (some [.sym "unk__0", .const 2]) := by
   decide
+
+/-- ... and since the fix the caller's own names survive whatever they look like, while a name ONNX
+    invented next to them (`unk__1`) is still reported as unknown -/
+theorem stripUnk_keeps_given (g : List String) (t : Ty) (h : ∀ s ∈ dimNames t, s ∈ g) : stripUnk g t = t := by
+  apply stripUnk_keeps
+  induction t with
+  | tensor e sh =>
+    cases sh with
+    | none => rfl
+    | some ds =>
+      simp only [tyInvented, List.any_eq_false]
+      intro d hd
+      cases d with
+      | const n => simp [dimInvented]
+      | unk => simp [dimInvented]
+      | sym s =>
+        have : s ∈ g := h s (by simp only [dimNames, List.mem_filterMap]; exact ⟨.sym s, hd, rfl⟩)
+        simp [dimInvented, this]
+  | seq t ih => exact ih h
+  | opt t ih => exact ih h
+
+example : stripUnk ["unk__0"] (.tensor 1 (some [.sym "unk__0", .sym "unk__1", .const 2]))
+    = .tensor 1 (some [.sym "unk__0", .unk, .const 2]) := by decide
 
 example : refinesAll [("o", some (.tensor 1 (some [.const 2, .unk])))] [("o", some (.tensor 1 none))] = true := by decide
 example : refinesAll [("o", some (.tensor 1 none))] [("o", some (.tensor 1 (some [.unk])))] = false := by decide
@@ -998,5 +1022,76 @@ example : scanFormals [.seq (.tensor 1 none)] 1 = none := by decide
 example : seqMapFormals (.seq (.tensor 1 (some [.const 2]))) [.seq (.tensor 7 none), .tensor 9 (some [])]
     = some [.tensor 1 (some [.const 2]), .tensor 7 none, .tensor 9 (some [])] := by decide
 example : seqMapFormals (.tensor 1 none) [] = none := by decide
+
+section ML
+open C06M MLOnnx
+
+/-! ### The ml operators whose inference spox replaces: agreement with / refinement of ONNX's answer -/
+
+/-- Binarizer: the constructor reports exactly what ONNX does - the input's type -/
+theorem ml_binarizer_agrees (x : ITy) : inferBinarizer x = .ok [x] := rfl
+
+/-- Scaler: whenever the constructor accepts a typed input, the output is typed float - it refines
+    ONNX's `tensor(float)` (and rejecting a mismatched feature count is "rejects more") -/
+theorem ml_scaler_refines (sc off : Option Nat) (t : C06M.Ty) :
+    mlRefines (inferScaler sc off (some t)) (onnxMlElem "Scaler" t.e) = true := by
+  simp only [inferScaler, onnxMlElem]
+  cases sc with
+  | none => cases off <;> simp [mlRefines]
+  | some a =>
+    cases off with
+    | none => simp [mlRefines]
+    | some b =>
+      by_cases h1 : featureMismatch a t.s = true
+      · simp [h1, mlRefines]
+      · by_cases h2 : featureMismatch b t.s = true
+        · simp [h1, h2, mlRefines]
+        · simp [h1, h2, mlRefines, mlTyped]
+
+/-- LinearRegressor, input of known rank: typed float (refines ONNX) ... -/
+theorem ml_linear_regressor_refines_partial (n : Nat) (e : Elem) (ds : List C06M.Dim) :
+    mlRefines (inferLinearRegressor n (tensor e ds)) (onnxMlElem "LinearRegressor" e) = true := by
+  simp only [inferLinearRegressor, ranked, tensor, onnxMlElem]
+  match ds with
+  | [] => simp [mlRefines, mlTyped, tensor]
+  | [_] => simp [mlRefines, mlTyped, tensor]
+  | [_, _] => simp [mlRefines, mlTyped, tensor]
+  | _ :: _ :: _ :: _ => simp [mlRefines]
+
+/-- ... but for an input of unknown rank the output is left untyped although ONNX infers
+    `tensor(float)` (known finding `patched-types-untyped:LinearRegressor`) -/
+theorem ml_linear_regressor_unranked_counterexample :
+    inferLinearRegressor 1 (some ⟨.f32, none⟩) = .ok [none]
+    ∧ mlRefines (inferLinearRegressor 1 (some ⟨.f32, none⟩)) (onnxMlElem "LinearRegressor" .f32) = false := by
+  decide
+
+/-- Imputer, known rank: the input's type (refines ONNX's "element type of X, no shape") ... -/
+theorem ml_imputer_refines_partial (f i : Option Nat) (e : Elem) (ds : List C06M.Dim) :
+    mlRefines (inferImputer f i (tensor e ds)) (onnxMlElem "Imputer" e) = true := by
+  simp only [inferImputer, ranked, tensor, onnxMlElem]
+  split
+  · simp [mlRefines]
+  · split <;> simp [mlRefines, mlTyped]
+
+theorem ml_imputer_unranked_counterexample :
+    mlRefines (inferImputer (some 1) none (some ⟨.f32, none⟩)) (onnxMlElem "Imputer" .f32) = false := by
+  decide
+
+/-- Normalizer: agrees with ONNX for a float input ... -/
+theorem ml_normalizer_refines_partial (ok : Bool) (s : Option (List C06M.Dim)) :
+    mlRefines (inferNormalizer ok (some ⟨.f32, s⟩)) (onnxMlElem "Normalizer" .f32) = true := by
+  cases ok <;> simp [inferNormalizer, mlRefines, mlTyped, onnxMlElem]
+
+/-- ... and contradicts it for every other element type: the input's element type is reported, ONNX
+    (and the operator) produce float (known finding `patched-types-contradicts:Normalizer`) -/
+theorem ml_normalizer_contradicts_counterexample :
+    inferNormalizer true (tensor .f64 [.named "N", .const 5]) = .ok [tensor .f64 [.named "N", .const 5]]
+    ∧ mlRefines (inferNormalizer true (tensor .f64 [.named "N", .const 5])) (onnxMlElem "Normalizer" .f64) = false := by
+  decide
+
+example : mlRefines (inferScaler (some 1) (some 1) (some ⟨.i32, some [.const 3, .const 3]⟩)) .f32 = true := by decide
+example : inferScaler (some 1) (some 1) (some ⟨.i32, some [.const 3, .const 3]⟩) = .ok [tensor .f32 [.const 3, .const 3]] := by decide
+
+end ML
 
 end C05
